@@ -53,6 +53,7 @@ def gen(rng, tier, index):
         "k": k,
         "trunc_space": gens.pick(rng, ("feature", "sample")),
         "seed": int(rng.integers(1000)),
+        "past": bool(rng.random() < 0.3),
     }
 
 
@@ -71,19 +72,21 @@ def run(case, j):
     tolr = 1e-6
 
     fits = {}
-    with pc.Capture() as cap:
-        fits["feature/full"] = pc.fit_pcovr(j, "feature/full", X, Y, reg, mixing=a, n_components=k, space="feature", svd_solver="full")
-        fits["sample/full"] = pc.fit_pcovr(j, "sample/full", X, Y, reg, mixing=a, n_components=k, space="sample", svd_solver="full")
+    robj = pc.make_regressor(reg)  # one regressor object shared by every route
+    past = (lambda i: np.random.default_rng(case["seed"] * 7 + i)) if case.get("past") else (lambda i: None)
+    with pc.Capture() as cap:  # earlier-history fits pass through the capture too: index 1 is the real-data fit then
+        fits["feature/full"] = pc.fit_pcovr(j, "feature/full", X, Y, reg, regressor_obj=robj, past=past(1), mixing=a, n_components=k, space="feature", svd_solver="full")
+        fits["sample/full"] = pc.fit_pcovr(j, "sample/full", X, Y, reg, regressor_obj=robj, past=past(2), mixing=a, n_components=k, space="sample", svd_solver="full")
         sp = case["trunc_space"]
         if k < min(n, m):
-            fits[f"{sp}/arpack"] = pc.fit_pcovr(j, "arpack", X, Y, reg, mixing=a, n_components=k, space=sp, svd_solver="arpack", random_state=case["seed"])
+            fits[f"{sp}/arpack"] = pc.fit_pcovr(j, "arpack", X, Y, reg, regressor_obj=robj, mixing=a, n_components=k, space=sp, svd_solver="arpack", random_state=case["seed"])
             j.note("arpack_fits")
         dim = n if sp == "sample" else m
         decays = bool(w[min(k, len(w) - 1)] <= 1e-3 * w[k - 1]) if k < len(w) else True
         if k + 10 >= min(dim, int((w > 1e-12 * w[0]).sum())) or decays:
             if k + 10 < min(dim, int((w > 1e-12 * w[0]).sum())):
                 j.note("randomized_sketch_smaller_than_rank")
-            fits[f"{sp}/randomized"] = pc.fit_pcovr(j, "randomized", X, Y, reg, mixing=a, n_components=k, space=sp, svd_solver="randomized", random_state=case["seed"], iterated_power=30)
+            fits[f"{sp}/randomized"] = pc.fit_pcovr(j, "randomized", X, Y, reg, regressor_obj=robj, mixing=a, n_components=k, space=sp, svd_solver="randomized", random_state=case["seed"], iterated_power=30)
             j.note("randomized_fits")
     if not cap.ok:
         j.note("capture_wrap_points_missing")
@@ -91,9 +94,9 @@ def run(case, j):
     # --- the matrices that were diagonalised
     if cap.cov and cap.ker:
         j.note("captured_matrices", len(cap.cov) + len(cap.ker))
-        wk = pc.spectrum(cap.ker[0])
+        wk = pc.spectrum(cap.ker[1 if case.get("past") and len(cap.ker) > 1 else 0])
         j.close("captured modified Gram matrix has the spectrum of the oracle's K~", wk[: len(w)], w, 1e-8 * w[0])
-        wc = pc.spectrum(cap.cov[0])
+        wc = pc.spectrum(cap.cov[1 if case.get("past") and len(cap.cov) > 1 else 0])
         r = min(len(wc), len(wk))
         j.close("modified covariance and modified Gram matrix share their non-zero spectrum", wc[:r], wk[:r], 1e-8 * w[0])
         j.ok("spectra beyond the common size vanish", float(np.abs(wc[r:]).max(initial=0)) <= 1e-8 * w[0] and float(np.abs(wk[r:]).max(initial=0)) <= 1e-8 * w[0])
